@@ -30,7 +30,7 @@ def Err.name : Err → String
   | .value => "ValueError"
   | .overflow => "OverflowError"
   | .assertion => "AssertionError"
-  | .eof => "EOFError"
+  | .eof => "EndOfStreamError"
   | .validation => "ValidationNotEqualError"
   | .type => "TypeError"
   | .index => "IndexError"
@@ -200,8 +200,8 @@ def asIpscBytes (x : Ipsc) : Except Err Bytes :=
   match halfByte x.cc 2 with
   | .error e => .error e
   | .ok cc =>
-    if x.dst * 256 ≥ 2 ^ 32 then .error .overflow else
-    if x.src * 256 ≥ 2 ^ 32 then .error .overflow else
+    if x.dst * 256 ≥ 4294967296 then .error .overflow else   -- 2^32
+    if x.src * 256 ≥ 4294967296 then .error .overflow else
     .ok (slice x.firstHeader 0 2 ++ slice x.secondHeader 0 2 ++ [x.seq] ++ slice x.reserved3 0 3
       ++ toLe 1 (valOf packetTypeVal x.packetType) ++ slice x.reserved7a 0 7
       ++ toLe 2 (valOf timeslotVal x.timeslot) ++ toLe 2 (valOf slotTypeVal x.slotType)
